@@ -178,9 +178,15 @@ func RunW(w *WCase) {
 				return
 			}
 			start := len(mem.Log)
+			// the context given to ToSQLTxContext may be cancelled during the export; the transaction itself was
+			// begun on the background context and stays the caller's
+			ctx, cancel := context.WithCancel(context.Background())
+			defer cancel()
+			mem.cancel = cancel
+			mem.afterStep() // a cancellation "after call 1": right after the caller's Begin
 			switch w.Entry {
 			case "ToSQLTxContext":
-				err = df.ToSQLTxContext(context.Background(), tx, string(w.Table), w.options()...)
+				err = df.ToSQLTxContext(ctx, tx, string(w.Table), w.options()...)
 			default:
 				err = df.ToSQLTx(tx, string(w.Table), w.options()...)
 			}
